@@ -98,6 +98,20 @@ def discharge(crate, sub, bi, kind, cs):
             if lo is not None:
                 if lo == 0:
                     return "range from 0"
+                if lo == 1:
+                    # `if let Some(tok) = classify(s.chars().next()?)` with classify matching ASCII literals only: the first char is 1 byte
+                    for e, cond in C.conditions_at(sub, bi):
+                        r_ = strip_role(cond[1]) if len(cond) > 1 else None
+                        inner_ = strip_role(r_[1]) if isinstance(r_, tuple) and r_[0] == "discr" else r_
+                        if isinstance(inner_, tuple) and inner_[0] == "call" and inner_[4] in sub.call_at and sub.call_at[inner_[4]].callee and sub.call_at[inner_[4]].callee.target in crate.bodies:
+                            f_ = crate.bodies[sub.call_at[inner_[4]].callee.target]
+                            cs_ = char_cases(f_) if f_.argc == 1 else set()
+                            arg_ = inner_[3][0] if inner_[3] else None
+                            if cs_ and all(ord(ch) < 128 for ch in cs_) and arg_ is not None and role_mentions_call(arg_, "chars") and role_mentions_call(arg_, "next") \
+                                    and e in C.variant_edges(sub, e[1], 1):
+                                src_ = [x for x in role_walk(arg_) if isinstance(x, tuple) and x[0] == "call" and x[1] == "chars"]
+                                if src_ and strip_role(src_[0][3][0]) == strip_role(sub.role_of_operand(cs.args[0])):
+                                    return "the first char of the same string was classified as one of the ASCII delimiters %s (1 byte)" % sorted(cs_)
                 for e, role, truth in sub.guards_dominating(bi):
                     r = strip_role(role)
                     sb = e[1]
@@ -368,6 +382,41 @@ def templates(crate, b):
     return out
 
 
+def char_cases(b):
+    """characters a function dispatches on with `match c { '(' => .., ')' => .. }` (switches whose discriminant is a char)"""
+    out = set()
+    for sb in b.switch_blocks():
+        t = b.blocks[sb]["term"]
+        pl = mir.op_place(t["discr"])
+        if pl is None:
+            continue
+        ty = b.local_ty(pl["l"])
+        if ty.replace("&", "").strip() != "char" and "char" not in role_str(b.role_of_operand(t["discr"])):
+            r = strip_role(b.role_of_operand(t["discr"]))
+            if not (isinstance(r, tuple) and r[0] == "param" and b.local_ty(b.param_index(r[1]) or 0).replace("&", "").strip() == "char"):
+                continue
+        for val, _ in t["cases"]:
+            try:
+                out.add(chr(int(val)))
+            except Exception:
+                pass
+    return out
+
+
+def char_table_helpers(crate, b):
+    """private functions of parse.rs called from b that classify a single char by a match on literals: {fn id: chars}"""
+    out = {}
+    for c in b.all_calls():
+        if c.callee and c.callee.target in crate.bodies:
+            f = crate.bodies[c.callee.target]
+            if (f.file or "").endswith("parse.rs") and f.argc == 1 and f.local_ty(1).replace("&", "").strip() == "char":
+                cs = char_cases(f)
+                if cs:
+                    out[f.id] = cs
+    return out
+
+
+
 @rule("L3", doc="printer / tokenizer literal agreement", once=True)
 def l3(ctx):
     crate = ctx.lib("default")
@@ -380,6 +429,8 @@ def l3(ctx):
     for c in t.calls:
         if c.callee and c.callee.name in ("starts_with", "strip_prefix", "split_once", "eq") and len(c.args) > 1 and c.args[1]["k"] == "const" and "text" in c.args[1]:
             tok_lits.add(re.sub(r"^['\"]|['\"]$", "", c.args[1]["text"]))
+    for cs_ in char_table_helpers(crate, t).values():
+        tok_lits |= cs_              # single-character delimiters classified by a table helper
     ctx.check(tok_lits >= {"(", ")", "[", "]", ":=", "?", "$"}, "tokenizer-literals", "the tokenizer dispatches on %s" % sorted(tok_lits), "the tokenizer no longer dispatches on all of ( ) [ ] := ? $ (has %s)" % sorted(tok_lits), where_of(t))
     mp = [b for b in crate.by_name.get("parse", []) if "MultiPattern" in (b.impl_self or "") and (b.file or "").endswith("parse.rs")]
     mp_lits = set()
@@ -399,6 +450,9 @@ def l3(ctx):
         ws = any(c.callee and c.callee.name == "is_whitespace" for c in b.calls)
         cont = [c for c in b.calls if c.callee and c.callee.name == "contains" and b.role_of_operand(c.args[0])[0] == "const"]
         chars = set(re.sub(r'^"|"$', "", b.role_of_operand(cont[0].args[0])[1])) if cont else set()
+        if not cont:
+            for cs_ in char_table_helpers(crate, b).values():
+                chars |= cs_
         ctx.check(ws and chars == set("()[]"), "ident-chars", "identifier characters exclude exactly whitespace and ( ) [ ]", "ident_char excludes whitespace=%s and %s" % (ws, sorted(chars)), where_of(b))
     # what the printers write
     disp = {}
